@@ -25,3 +25,17 @@ Print Assumptions C01_url_escape_terminates.
 Theorem C01_render_total : forall c src t, wf_tree src t = true -> exists o, RenderHTML c src t = Ok o.
 Proof. exact RenderHTML_total. Qed.
 Print Assumptions C01_render_total.
+
+(* the modelled block and inline scanners (ATX heading and fence openers, ScanDelimiter) never
+   panic on what the driver hands them: any line and block offset for ATX; an offset inside
+   the line for a fence; a non-empty line for a delimiter run *)
+Require Import GM.model.ListItem GM.model.LeafBlocks GM.model.Delim GM.model.DelimI GM.proofs.BlockRangeProofs.
+Theorem C01_atx_open_total : forall line pos, atx_open space_table line pos <> Panic.
+Proof. exact (atx_open_total space_table). Qed.
+Print Assumptions C01_atx_open_total.
+Theorem C01_fence_open_total : forall line pos, (pos < zlen line)%Z -> fence_open space_table line pos <> Panic.
+Proof. exact (fence_open_total space_table). Qed.
+Print Assumptions C01_fence_open_total.
+Theorem C01_scan_delimiter_total : forall line before minimum, line <> [] -> ScanDelimiter line before minimum <> Panic.
+Proof. exact (scan_delimiter_total PunctRune SpaceRune emph_delim). Qed.
+Print Assumptions C01_scan_delimiter_total.
